@@ -19,7 +19,15 @@ KW = ["annotation", "attr", "const", "enum", "fun", "internal", "literal", "out"
       "static", "segment", "sub", "this", "union", "unknown", "val", "where", "false", "true", "null"]
 BECOME_KW = ["from_", "in_", "class_", "or_", "_from", "not_", "import_", "yield_", "and_", "as_", "val_"]
 FOREIGN = ["logging.handlers.SocketHandler", "wsgiref.handlers.SimpleHandler", "collections.OrderedDict", "abc.ABC",
-           "numpy.ndarray", "pathlib.Path", "os.PathLike", "xml.dom.Node", "my_lib.some_mod.snake_class"]
+           "numpy.ndarray", "pathlib.Path", "os.PathLike", "xml.dom.Node", "my_lib.some_mod.snake_class",
+           # several classes of one library module, lower- and upper-case, and a sub-module whose class sorts in between
+           "extlib.Axis", "extlib.frame", "extlib.grid.Mesh", "extlib.series", "datetime.date", "datetime.time", "datetime.timedelta",
+           "numpy.dtype", "numpy.ma.MaskedArray", "logging.handlers.RotatingFileHandler", "wsgiref.handlers.BaseHandler"]
+# groups that are used together, so that one API object refers to several classes of the same library module
+FOREIGN_GROUPS = [["extlib.Axis", "extlib.frame", "extlib.grid.Mesh", "extlib.series"],
+                  ["datetime.date", "datetime.time", "datetime.timedelta"],
+                  ["numpy.dtype", "numpy.ma.MaskedArray", "numpy.ndarray"],
+                  ["logging.handlers.RotatingFileHandler", "wsgiref.handlers.BaseHandler", "logging.handlers.SocketHandler"]]
 
 
 class G:
@@ -28,6 +36,11 @@ class G:
         self.tag = tag
         self.n = 0
         self.classes: list[Class] = []       # all classes (for references)
+        self.foreign_pool = list(FOREIGN)
+        self.group = None
+        if rng.random() < 0.5:
+            self.group = rng.choice(FOREIGN_GROUPS)
+            self.foreign_pool = self.group * 4 + FOREIGN[:4]
 
     def num(self):
         self.n += 1
@@ -56,7 +69,7 @@ class G:
         if r < 0.8 and self.classes:
             c = self.rng.choice(self.classes)
             return T.NamedType(c.name, c.id.replace("/", "."))
-        q = self.rng.choice(FOREIGN)
+        q = self.rng.choice(self.foreign_pool)
         return T.NamedType(q.split(".")[-1], q)
 
     def ty(self, depth: int) -> T.AbstractType:
@@ -217,6 +230,8 @@ def gen_api(rng: random.Random, idx: int) -> API:
             pkgs.append(f"{root}/{rng.choice(['public_interface_layer', 'inventory_management_api'])}")
     inits = {p: Module(id_=p, name="__init__") for p in pkgs}
     modules: list[Module] = []
+    all_private: list[Class] = []
+    used_seg_names: set[str] = set()
     nmods = rng.randrange(1, 5)
     for mi in range(nmods):
         pk = rng.choice(pkgs)
@@ -240,17 +255,36 @@ def gen_api(rng: random.Random, idx: int) -> API:
                     supers.append(b.id.replace("/", "."))
             if rng.random() < 0.15:
                 supers.append(rng.choice(FOREIGN))
-            c = g.cls(m.id, 1, private=private, supers=supers)
+            # private classes of other modules as bases (also two of them that share their simple name)
+            others = [b for b in all_private if not b.id.startswith(m.id + "/")]
+            if others and rng.random() < 0.35:
+                b = rng.choice(others)
+                if b.id.replace("/", ".") not in supers:
+                    supers.append(b.id.replace("/", "."))
+            twin = None
+            if private and others and rng.random() < 0.4:
+                twin = rng.choice(others).name       # a private class named like a private class of another module
+                if any(x.name == twin for x in m.classes):
+                    twin = None
+            c = g.cls(m.id, 1, name=twin, private=private, supers=supers)
             m.classes.append(c)
             if c.name.startswith("_"):
                 priv_bases.append(c)
+                all_private.append(c)
         if priv_bases and m.classes and rng.random() < 0.5:
             host = m.classes[0]
             if not host.name.startswith("_") or True:
                 nested = g.cls(host.id, 0, name=rng.choice(priv_bases).name)
                 host.classes.append(nested)
         for _ in range(rng.randrange(0, 4)):
-            m.global_functions.append(g.func(m.id))
+            # now and then a function is named like a package on its own path (it may be re-exported into that package)
+            seg_name = rng.choice(pk.split("/")) if rng.random() < 0.12 else None
+            if seg_name and (seg_name in used_seg_names or any(f.name == seg_name for f in m.global_functions)):
+                seg_name = None      # one declaration per package-segment name: two of them re-exported into one package would
+                                     # share a stub path (a defect of the tool that is outside this stream, DESIGN 8.3)
+            if seg_name:
+                used_seg_names.add(seg_name)
+            m.global_functions.append(g.func(m.id, name=seg_name))
         for _ in range(rng.randrange(0, 2)):
             e = Enum(f"{m.id}/{g.name('enum')}", "", ClassDocstring(description=rng.choice(["", "Enum doc."])))
             e.name = e.id.split("/")[-1]
@@ -258,6 +292,14 @@ def gen_api(rng: random.Random, idx: int) -> API:
                 mn = g.name("member")
                 e.instances.append(EnumInstance(f"{e.id}/{mn}", mn))
             m.enums.append(e)
+    if g.group and modules:
+        # one function that refers to every class of the chosen library group
+        m0 = modules[0]
+        fid = f"{m0.id}/uses_library_{tag}"
+        ps = [Parameter(f"{fid}/p{k}", f"p{k}", False, None, ParameterAssignment.POSITION_OR_NAME, ParameterDocstring(),
+                        T.NamedType(q.split(".")[-1], q)) for k, q in enumerate(g.group)]
+        m0.global_functions.append(Function(id=fid, name=f"uses_library_{tag}", docstring=FunctionDocstring(), is_public=True, is_static=False,
+                                            is_class_method=False, is_property=False, result_docstrings=[], results=[], parameters=ps))
     # re-exports: name, alias, star, module; registered the way the analyzer does it
     for m in modules:
         pk = "/".join(m.id.split("/")[:-1])
